@@ -4,4 +4,5 @@ let () =
   match mode with
   | "syntax" -> Syntax.run_syntax ic
   | "hash" -> Hashmodel.run_hash ic
+  | "graph" -> Graphmodel.run_graph ic
   | m -> prerr_endline ("unknown mode " ^ m); exit 2
